@@ -254,10 +254,10 @@ PROPS = {
         "exhaustive": True,
     },
     "C13": {
-        "rules": R(DL.lk0_blocking_acquisitions, DL.l1_lock_order, DL.l2_wait_for, E.e6_reducer_never_enqueues,
-                   T.st1_stop_is_close_plus_join, Q.q4_close, T.st3_loop_exits,
+        "rules": R(r(DL.lk0_blocking_acquisitions, only=r"try-lock-unwrapped|all-acquisitions|floor"), DL.l1_lock_order, DL.l2_wait_for, E.e6_reducer_never_enqueues,
+                   r(T.st1_stop_is_close_plus_join, only=r"closes-first|floor"), Q.q4_close, T.st3_loop_exits,
                    r(S.cb1_callbacks_hold_no_reentrant_lock, only=r"no-state-lock|floor"),
-                   C.ch1_arm_purity, r(X.it_iterator, only=r"feeder-forwards-once:on_unsubscribe"),
+                   r(C.ch1_arm_purity, only=r"drop-arm-never-blocks|paths-complete|arm-present|path-without-policy"), r(X.it_iterator, only=r"feeder-forwards-once:on_unsubscribe"),
                    r(S.su3_shutdown_release, only=r"every-exit-releases|floor:clear")),
         "explanation": "Static deadlock analysis on context-sensitive inlined call graphs rooted at every entry point of every thread role (client API, reducer thread, pool jobs, channeled thread, iterator consumer), with class-hierarchy resolution of dyn calls into the crate's impls and the property's own model of user callbacks: the lock-order graph is acyclic without self edges (L1); no blocking send/recv/join is performed while holding a lock the unblocking party takes, no role blocks on a channel only it consumes, joined threads are disconnected first (L2, E6); the thread stop() joins is guaranteed its Exit: stop() closes first, close() enqueues Exit under a blocking lock on every path, the loop leaves on Exit (ST1,Q4,ST3). Premises about the leaf wrapper and the joined threads: drop arms never block, the blocking arm is one blocking send (CH1), stop() closes first, close() enqueues Exit on every path and the loop leaves on it (ST1,Q4,ST3), the iterator is released by a blocking Exit send (IT2), callbacks never run under the state lock (CB1).",
         "not_decided": ["progress inside crossbeam/rusty_pool/std", "a client thread playing two roles itself", "the 3 s timeout masking a hang"],
